@@ -1314,6 +1314,10 @@ func (pc ParseContext) compilePackage(ctx context.Context, b ast.Branch, c ast.C
 		name := scanner.String()
 		if strings.HasPrefix(name, "/") {
 			fromRoot := pkg["dot"] == nil
+			// Whitespace around the path is not part of it. Strip it before the
+			// path is cleaned and checked so that the checks below see the
+			// path that is actually going to be opened.
+			name = "/" + strings.Trim(name[1:], " \t\n")
 			if !fromRoot {
 				name = "." + name
 			}
